@@ -176,6 +176,10 @@ pub fn run(outdir: &Path, tier: &str, seed: u64, shards: usize, _replay: Option<
         ("app/schema.graphql", Some("SA"), Some(SCHEMA_A.into())),
         ("vendor/schema.graphql", Some("SB"), Some(SCHEMA_B.into())),
         ("app/shared/../schema.graphql", Some("SB"), None),          // resolves through the symlink
+        // one file under two more names whose EXTENSIONS select other readers (symbolic links to a.graphql):
+        // SDL text read as JSON fails, an unsupported extension fails — whatever was loaded before
+        ("alias.json", Some("!SDL text under a .json name"), None),
+        ("alias.current", Some("SA"), None),
         ("c.graphql", Some("SC"), Some(SCHEMA_C.into())),
         ("d.graphql", Some("SD"), Some(SCHEMA_D.into())),
         ("qw.graphql", Some("QW"), Some(QUERY_W.into())),
@@ -191,7 +195,9 @@ pub fn run(outdir: &Path, tier: &str, seed: u64, shards: usize, _replay: Option<
             std::fs::write(base.join(p), t).unwrap();
         }
     }
-    let schemas = ["a.graphql", "x/schema.graphql", "y/schema.graphql", "a.gql", "a.json", "app/schema.graphql", "app/shared/../schema.graphql", "c.graphql", "d.graphql", "broken.graphql", "schema.txt", "missing.graphql"];
+    let _ = std::os::unix::fs::symlink("a.graphql", base.join("alias.json"));
+    let _ = std::os::unix::fs::symlink("a.graphql", base.join("alias.current"));
+    let schemas = ["alias.json", "alias.current", "a.graphql", "x/schema.graphql", "y/schema.graphql", "a.gql", "a.json", "app/schema.graphql", "app/shared/../schema.graphql", "c.graphql", "d.graphql", "broken.graphql", "schema.txt", "missing.graphql"];
     let queries = ["q1.graphql", "x/q.graphql", "y/q.graphql", "q3.graphql", "qw.graphql", "brokenq.graphql", "missingq.graphql"];
     let optids = ["default", "rust", "other", "named"];
     let nhist = if tier == "thorough" { 300 } else { 24 };
@@ -205,6 +211,7 @@ pub fn run(outdir: &Path, tier: &str, seed: u64, shards: usize, _replay: Option<
         vec![vec![mk("missingq.graphql", "a.graphql", "default"), mk("q1.graphql", "a.graphql", "default")]],           // failed load, then a good call
         vec![vec![mk("q1.graphql", "broken.graphql", "default"), mk("q1.graphql", "a.graphql", "default"), mk("q1.graphql", "schema.txt", "default"), mk("q1.graphql", "a.graphql", "default")]],
         vec![vec![mk("q1.graphql", "x/schema.graphql", "default"), mk("q1.graphql", "y/schema.graphql", "default"), mk("q1.graphql", "x/schema.graphql", "default")]], // same base name
+        vec![vec![mk("q1.graphql", "a.graphql", "default"), mk("q1.graphql", "alias.json", "default"), mk("q1.graphql", "alias.current", "default"), mk("q1.graphql", "a.graphql", "default")]], // aliases with other extensions
         vec![vec![mk("q1.graphql", "app/shared/../schema.graphql", "default"), mk("q1.graphql", "app/schema.graphql", "default")]],
         vec![vec![mk("q1.graphql", "app/schema.graphql", "default"), mk("q1.graphql", "app/shared/../schema.graphql", "default")]],
         vec![vec![mk("qw.graphql", "c.graphql", "default"), mk("qw.graphql", "d.graphql", "default"), mk("qw.graphql", "c.graphql", "default")]], // same-named input type
@@ -276,7 +283,7 @@ pub fn run(outdir: &Path, tier: &str, seed: u64, shards: usize, _replay: Option<
     let samples: Vec<_> = cases.iter().take(2).map(|c| c.desc.clone()).collect();
     let cs = CaseSet { run_module: "RunC08".into(), cases, checkers: vec!["corr".into(), "prop_sequential".into(), "prop_concurrent".into()], extra_imports: vec!["Cache".into()], preludes: vec![] };
     cs.write(outdir, shards, json!({
-        "rule": "random histories of 1-16 threads x 1-8 calls over 8 schema paths (the same contents under three paths and as introspection JSON, another schema with the same base name, unparsable, unsupported extension, missing) x 6 query paths (incl. unparsable and missing) x 4 option sets; each history is run sequentially in one fresh process, concurrently behind a barrier in one fresh process, and every call alone in its own fresh process; outcomes are digests of the token stream / error text, or panic. Non-trivial = a history with more than one call in which some call fails.",
+        "rule": "random histories of 1-16 threads x 1-8 calls over 14 schema paths (the same contents under three paths and as introspection JSON, symbolic links to one file under a .json and an unsupported extension, another schema with the same base name, unparsable, unsupported extension, missing) x 6 query paths (incl. unparsable and missing) x 4 option sets; each history is run sequentially in one fresh process, concurrently behind a barrier in one fresh process, and every call alone in its own fresh process; outcomes are digests of the token stream / error text, or panic. Non-trivial = a history with more than one call in which some call fails.",
         "distribution": dist, "samples": samples,
     }));
     let _ = std::fs::remove_dir_all(&base);
